@@ -146,6 +146,12 @@ package cty
 //@   let n (Slice.len (select $H<Slice> errs))
 //@   ensures[C07] grows: (>= n n0)
 //@   ensures[C07] exact: (= (= n n0) (conforms given want))
+//@   let same (=> (= n n0) (= (select $H<Slice> errs) (select (old $H<Slice>) errs)))
+//@   ensures[C07] unchanged: same
+//@   loop 1 invariant same
+//@   loop 2 invariant same
+//@   loop 3 invariant same
+//@   loop 4 invariant same
 //@   loop 1 invariant (and (>= n n0) (= (= n n0) (sub<String> $visited (obj_dom want))))
 //@   loop 2 invariant (and (>= n n0) (= (= n n0) (and (sub<String> (obj_dom given) (obj_dom want)) (sub<String> $visited (obj_dom given)))))
 //@   loop 3 invariant (and (>= n n0) (= (= n n0) (and (= (obj_dom given) (obj_dom want)) (forall ((k String)) (! (=> (select $visited k) (conforms (obj_aty given k) (obj_aty want k))) :pattern ((select $visited k)))))))
@@ -158,6 +164,7 @@ package cty
 //@   tags C07
 //@   requires (and (wf_ty t) (wf_ty other))
 //@   ensures[C07] (= (= (Slice.len result) 0) (conforms t other))
+//@   ensures[C07] nil_iff_empty: (= (= (Slice.ptr result) 0) (= (Slice.len result) 0))
 //
 //@ func (cty.Type).HasDynamicTypes
 //@   tags C07
